@@ -89,7 +89,7 @@ def _install_listdir(order: str):
 
 
 def _make_world(spec: SeqSpec, root):
-    name, config, prefix = root
+    name, config, prefix = root[:3]
     # internal batch-size thresholds (class attributes read through self): lowered so that the small states of the
     # search exercise the multi-chunk IN queries and the sorted full-scan strategy as well
     from disk_objectstore import Container
@@ -110,8 +110,12 @@ def _canon(w: World, raw: RawState):
     if _SPEC is not None and _SPEC.tolerate_exceptions:
         # operations may refuse: the reference model is then not a function of the on-disk state, so it is part of the state
         extra = (w.model.state(), tuple(sorted(w.uncertain)))
-    return (tuple(sorted(w.config.items())), raw.canon(), tuple(handle_state(h) for h in w.handles), w.cur,
+    full = (tuple(sorted(w.config.items())), raw.canon(), tuple(handle_state(h) for h in w.handles), w.cur,
             tuple(sorted(w.damaged)), (Container._IN_SQL_MAX_LENGTH, Container._MAX_CHUNK_ITERATE_LENGTH)) + extra
+    # the search only needs equality of canonical states: keep a 128-bit digest (the parent of a deep search holds hundreds of
+    # thousands of states; the full tuples cost gigabytes)
+    import hashlib
+    return hashlib.blake2b(repr(full).encode(), digest_size=16).hexdigest()
 
 
 def _replay(spec: SeqSpec, root, hist):
@@ -159,7 +163,7 @@ def _state_task(arg):
     root, hist, expect_canon = arg
     spec = _SPEC
     _install_listdir(spec.listdir_order)
-    if expect_canon and expect_canon[0] == 'hang':
+    if isinstance(expect_canon, tuple) and expect_canon[0] == 'hang':
         return []
     for horizon in (spec.horizon, spec.horizon * HORIZON_RETRY_FACTOR):
         w = None
@@ -202,6 +206,9 @@ def explore(spec: SeqSpec, report, deadline: float | None = None):
         rname = root[0]
         core = list(spec.core_ops(rname))
         variants = list(spec.variant_ops(rname))
+        # optional per-root bounds: (name, config, prefix, {'depth': d, 'max_variants': v})
+        r_depth = root[3].get('depth', spec.depth) if len(root) > 3 else spec.depth
+        r_maxv = root[3].get('max_variants', spec.max_variants) if len(root) > 3 else spec.max_variants
         # root state
         w = _make_world(spec, root)
         try:
@@ -219,7 +226,7 @@ def explore(spec: SeqSpec, report, deadline: float | None = None):
         frontier.append(([], 0))
         root_states = 1
         root_trans = 0
-        for depth in range(1, spec.depth + 1):
+        for depth in range(1, r_depth + 1):
             if not frontier:
                 break
             if deadline and time.time() > deadline:
@@ -228,7 +235,7 @@ def explore(spec: SeqSpec, report, deadline: float | None = None):
             tasks = []
             for hist, v in frontier:
                 ops = [op for op in core if spec.enabled(hist, op)]
-                if v < spec.max_variants:
+                if v < r_maxv:
                     ops += [op for op in variants if spec.enabled(hist, op)]
                 # split so that the pool is kept busy but tasks are not tiny
                 step = max(1, min(len(ops), 12))
@@ -248,7 +255,7 @@ def explore(spec: SeqSpec, report, deadline: float | None = None):
                     for clause, detail in viols:
                         n_step_viol += 1
                         report.add_violation(_viol(spec, clause, detail, rname, h2, op))
-                    if canon[0] == 'hang':
+                    if isinstance(canon, tuple) and canon[0] == 'hang':
                         continue        # reported as a violation above; a hanging history is not expanded
                     if canon in seen:
                         ms, pairs, first = seen[canon]
@@ -266,7 +273,7 @@ def explore(spec: SeqSpec, report, deadline: float | None = None):
                             nxt.append((h2, v2))
                         new_states.append((root, h2, canon))
                         root_states += 1
-                        if len(samples) < 6 and depth == spec.depth:
+                        if len(samples) < 6 and depth == r_depth:
                             samples.append({'root': rname, 'history': h2})
             # state checks on the new canonical states
             if type(spec).state_check is SeqSpec.state_check:
@@ -284,12 +291,12 @@ def explore(spec: SeqSpec, report, deadline: float | None = None):
             log(f'{spec.prop} root={rname} depth={depth}: frontier={len(frontier)} transitions={root_trans} '
                 f'new_states={len(new_states)} total_states={len(seen)} violations={len(report.violations)} '
                 f'({time.time() - t0:.0f}s)')
-            frontier = nxt if depth < spec.depth else []
+            frontier = nxt if depth < r_depth else []
             # stop early once a violation is found at this depth: the shortest counterexamples are the useful ones
-            if report.violations and depth < spec.depth and os.environ.get('DOSMC_KEEP_GOING') != '1':
+            if report.violations and depth < r_depth and os.environ.get('DOSMC_KEEP_GOING') != '1':
                 capped = f'stopped after depth {depth} of root {rname}: violations found (shortest first)'
                 break
-        per_root[rname] = {'states': root_states, 'transitions': root_trans}
+        per_root[rname] = {'states': root_states, 'transitions': root_trans, 'depth': r_depth, 'max_variants': r_maxv}
         if capped:
             break
     common.shutdown_pool()
